@@ -137,7 +137,6 @@ def r2_who_may_touch(ctx):
                 ext = ctx.repo.external_name(m, cl.func) or ""
                 if ext in ("numpy.random.seed", "numpy.random.set_state", "random.seed"):
                     ctx.fail(f"{m.name}#module-level:{ext}", f"{ext}(...) at import time", where=m, node=cl)
-    ctx.floor(n, 3)
 
 
 def _class_stores_param(ctx, ci: ClassInfo, attr_public: str) -> tuple[bool, str]:
@@ -347,7 +346,29 @@ def r5_uncontrolled_draws(ctx):
             facts={"models": models[:6]},
         )
     ctx.note(f"{n} numba-compiled function(s) draw random numbers")
+    # generators constructed without (or not from) a seed
+    for f in sorted(ctx.repo.all_functions(), key=lambda x: x.qual):
+        for c in walk_local(f.node):
+            if not isinstance(c, ast.Call):
+                continue
+            ext = ctx.repo.external_name(f.module, c.func) or ""
+            if ext not in ("numpy.random.default_rng", "numpy.random.Generator", "numpy.random.RandomState", "numpy.random.SeedSequence", "random.Random"):
+                continue
+            a = arg_or_kw(c, 0, "seed")
+            top = f
+            while top.outer is not None:
+                top = top.outer
+            if a is None or (isinstance(a, ast.Constant) and a.value is None):
+                ok = top.qual in UNSEEDED_GENERATORS
+                ctx.check(ok, f"{f.qual}#{ext.split('.')[-1]}", UNSEEDED_GENERATORS.get(top.qual, "") if ok else f"{ext}() without a seed creates an OS-entropy generator: its draws are governed by neither the pipeline seed nor a model seed", where=f, node=c)
+            else:
+                ok = any("seed" in n.lower() for n in names_in(a)) or any(isinstance(x, ast.Attribute) and "seed" in x.attr.lower() for x in ast.walk(a))
+                ctx.check(ok, f"{f.qual}#{ext.split('.')[-1]}", f"generator seeded from {norm(a)}" if ok else f"{ext}({norm(a)}) is not derived from a seed setting", where=f, node=c)
 
+
+UNSEEDED_GENERATORS = {
+    "pyxel.calibration.calibration:Calibration.__init__": "draws the optimiser seed itself when the user gave none (no seed requested => nothing to reproduce)",
+}
 
 FIXTURES = {
     "r2_who_may_touch": {"dir": "c04_r2", "expect_construct": "numpy.random.seed"},
